@@ -42,9 +42,9 @@ func genC01(repo string) (string, error) {
 		}
 	}
 	opt := goast.SkelOpt{
-		Calls:   set("loadTimestamp", "getTSO", "Check", "generateTSO", "LeaderTxn", "Commit", "Store", "Load", "differentiateLogical"),
-		Assigns: set("physical", "logical", "save", "next"), Conds: true, Branches: true, ArgCalls: set("setTSOPhysical", "saveTimestamp")}
-	for _, fn := range []string{"setTSOPhysical", "getTSO", "generateTSO", "saveTimestamp", "SyncTimestamp", "resetUserTimestamp", "UpdateTimestamp", "getTS", "ResetTimestamp"} {
+		Calls:   set("loadTimestamp", "getTSO", "Check", "generateTSO", "LeaderTxn", "Commit", "Store", "Load", "differentiateLogical", "refreshLastSavedTime", "GetValue", "ParseTimestamp", "SubRealTimeByWallClock"),
+		Assigns: set("physical", "logical", "save", "next", "saveUncertain"), Conds: true, Branches: true, ArgCalls: set("setTSOPhysical", "saveTimestamp")}
+	for _, fn := range []string{"setTSOPhysical", "getTSO", "generateTSO", "saveTimestamp", "refreshLastSavedTime", "SyncTimestamp", "resetUserTimestamp", "UpdateTimestamp", "getTS", "ResetTimestamp"} {
 		if err := o.skeleton(ts, "timestampOracle", fn, "skel_"+fn, opt); err != nil {
 			return "", err
 		}
